@@ -1,4 +1,3 @@
 package main
 
-func genEffects(p, enc *pkgInfo, out string)   {}
-func genEmbedded(enc *pkgInfo, out string)     {}
+func genEmbedded(enc *pkgInfo, out string) {}
